@@ -31,12 +31,10 @@ OPS = [
 
 
 def functions_by_file():
-    """file -> {fn name -> set(properties)}"""
+    """file -> {fn name (None = the whole file is anchored) -> set(properties)}"""
     res = {}
     for prop, lst in anchor_table.ANCHORS.items():
         for f, fn in lst:
-            if fn is None:
-                continue
             res.setdefault(f, {}).setdefault(fn, set()).add(prop)
     return res
 
@@ -44,6 +42,10 @@ def functions_by_file():
 def fn_spans(text, name):
     """[(start, end)] character spans of every `fn name` body"""
     spans = []
+    if name is None:
+        # whole-file anchor: everything in front of the unit tests
+        end = text.find("#[cfg(test)]")
+        return [(0, end if end > 0 else len(text))]
     for m in re.finditer(r"\bfn\s+%s\b" % re.escape(name), text):
         body = anchors.fn_body(text[m.start():], name)
         if body:
@@ -71,6 +73,8 @@ def candidates(repo):
             continue
         text = open(p).read()
         for fn, props in fns.items():
+            if fn is None and len(fns) > 1 and os.environ.get("AUTOMUT_WHOLE") != "1":
+                continue
             for (a, b) in fn_spans(text, fn):
                 seg = text[a:b]
                 for pat, rep in OPS:
